@@ -120,6 +120,14 @@ def run_wrapper():
                     obj(x, *args3, **kwds3)
                     ok3 = len(calls) == 1 and calls[0][3].get('args') == args3 and calls[0][3].get('kwargs') == kwds3
                     solve.fact(tag + 'third-call-forwards-its-own-arguments', ok3)
+                    # history: the public attributes (method, step, bounds, sparsity) are read at the time of the call
+                    other = {'central': 'complex', 'forward': 'central', 'complex': 'forward', 'backward': 'complex'}[method]
+                    obj.method = other; obj.step = 0.25; new_b = (np.array([-5.0, -5.0]), np.array([5.0, 5.0])); obj.bounds = new_b
+                    del calls[:]
+                    obj(x)
+                    ok4 = len(calls) == 1 and calls[0][3].get('method') == MAP[other] and calls[0][3].get('rel_step') == 0.25 and calls[0][3].get('bounds') is new_b
+                    solve.fact(tag + 'attributes-changed-after-construction-are-the-ones-used(method,step,bounds)', ok4,
+                               note=str([(c_[3].get('method'), c_[3].get('rel_step')) for c_ in calls])[:200])
                     if klass == 'Jacobian':
                         solve.fact(tag + 'result-returned-unchanged', out is ret)
                     else:
